@@ -185,6 +185,10 @@ func (s *SkipListWithCmp[K, V]) Range(f func(K, V) bool) {
 // RangeWithStart calls f sequentially for each key and value present in the skip list starting from the key.
 // The zone is [start, +∞)
 func (s *SkipListWithCmp[K, V]) RangeWithStart(start K, f func(K, V) bool) {
+	if s.len == 0 {
+		return
+	}
+
 	cur := &s.head
 top:
 	for i := s.level - 1; i >= 0; i-- {
